@@ -930,7 +930,9 @@ def c10_shapes(tier):
           (1, [(0, 0, True, False)], 'selfclone1'), (2, [R(0, 1), R(1, 0)], 'ring2'), (3, F.named_shapes(3)['ring2+tail'], 'ring2+tail'),
           (3, F.named_shapes(3)['owner-of-ring2'], 'owner-of-ring2'),
           # ring members that also carry upstream's no-effect same-handle self adoption (a second, Loopback key in the trace result)
-          (2, [R(0, 1), R(1, 0), (0, 0, True, 'noop')], 'ring2+noop-self@0'), (2, [R(0, 1), (1, 1, True, 'noop')], 'owner-target+noop-self@1')]
+          (2, [R(0, 1), R(1, 0), (0, 0, True, 'noop')], 'ring2+noop-self@0'), (2, [R(0, 1), (1, 1, True, 'noop')], 'owner-target+noop-self@1'),
+          # an outside owner that adopted a ring member twice: its death (zero count) must purge both records before its value drops the handles
+          (3, [R(0, 1), R(0, 1), R(1, 2), R(2, 1)], 'doubled-tail-into-ring2')]
     if tier != 'quick':
         sh.append((3, F.named_shapes(3)['ring3'] + [(1, 1, True, 'noop')], 'ring3+noop-self@1'))
         for nm, e in F.named_shapes(3).items():
@@ -1184,7 +1186,9 @@ def items_C12(tier, seed, P):
     }
     # mutual adoption with unequal multiplicities; the peer gives up its handles without unadopt (allowed), so the object
     # has a sole strong handle although it is recorded as adopted
-    for (e, nm, takes) in [([R(0, 1), R(1, 0), R(1, 0)], 't=>x, x=>t x2; x gives up both', 2), ([R(0, 1), R(0, 1), R(1, 0)], 't=>x x2, x=>t; x gives up its handle', 1)]:
+    for (e, nm, takes) in [([R(0, 1), R(1, 0), R(1, 0)], 't=>x, x=>t x2; x gives up both', 2), ([R(0, 1), R(0, 1), R(1, 0)], 't=>x x2, x=>t; x gives up its handle', 1),
+                           # t has adopted itself through a clone and given that handle up again without unadopt; it still owns x
+                           ([(0, 0, True, False), R(0, 1)], 't=>t (clone), t=>x; t gives up its self handle', -1)]:
         for an in ('try_unwrap', 'try_unwrap+weak', 'make_mut+weak'):
             # the object that is unwrapped / stolen has exactly one strong handle (otherwise the call is a no-op and the stale
             # record alone decides, which is C13's subject); its peer may be held any number of times
@@ -1192,6 +1196,8 @@ def items_C12(tier, seed, P):
             base.insert(2, {'op': 'extras', 'h': H(1), 'n': 'e1'})
             for k in range(takes):
                 base += [{'op': 'take', 'via': H(1), 'slot': 0, 'as': 'g%d' % k}, {'op': 'drop', 'h': 'g%d' % k}]
+            if takes == -1:
+                base += [{'op': 'take', 'via': H(0), 'slot': 0, 'as': 'g0'}, {'op': 'drop', 'h': 'g0'}]
             base += apis[an](H(0))
             for tail in ([{'op': 'clone', 'h': H(1), 'as': 'cx'}, {'op': 'drop', 'h': 'cx'}, {'op': 'drop', 'h': H(1)}], [{'op': 'drop', 'h': H(1)}]):
                 ops = list(base) + tail
@@ -1472,7 +1478,7 @@ def history_items(prop, tier, seed, oracles, opts=None, accept=None, relabel=Fal
     every object is dropped (trace), then the named handles in every order"""
     items = []
     maxm = 2 if tier == 'quick' else 3
-    ctxs = ['pair', 'target-in-ring', 'owner-target-ring', 'self', 'self+loopback']
+    ctxs = ['pair', 'target-in-ring', 'owner-target-ring', 'owner-target-ring-late', 'self', 'self+loopback']
     if prop not in ('C01', 'C03'):
         # upstream's no-effect same-handle adoption recorded m times and taken back u times
         for m in range(1, maxm + 1):
@@ -1483,7 +1489,7 @@ def history_items(prop, tier, seed, oracles, opts=None, accept=None, relabel=Fal
                 items.append(dict(prop=prop, name='hist loopback-only m=%d u=%d' % (m, u), script={'ops': [dict(o) for o in ops]}, sym=True, oracles=set(oracles),
                                   opts=dict(opts or {}), layouts=[None]))
     for ctx in ctxs:
-        n = {'pair': 2, 'target-in-ring': 3, 'owner-target-ring': 2, 'self': 1, 'self+loopback': 1}[ctx]
+        n = {'pair': 2, 'target-in-ring': 3, 'owner-target-ring': 2, 'owner-target-ring-late': 2, 'self': 1, 'self+loopback': 1}[ctx]
         tgt = 0 if ctx.startswith('self') else 1
         for m in range(1, maxm + 1):
             for u in range(0, m + 2):
@@ -1507,6 +1513,9 @@ def history_items(prop, tier, seed, oracles, opts=None, accept=None, relabel=Fal
                     base_slots = 1 if ctx == 'target-in-ring' and tgt == 0 else 0
                     for k in range(m):
                         ops += [{'op': 'clone', 'h': H(tgt), 'as': 'a%d' % k}, {'op': 'adopt', 'a': H(0), 'b': 'a%d' % k}, {'op': 'store', 'via': H(0), 'h': 'a%d' % k}]
+                    if ctx == 'owner-target-ring-late':
+                        # the reverse adoption (target adopts owner) is recorded AFTER the owner's adoptions
+                        ops += [{'op': 'clone', 'h': H(0), 'as': 'r0'}, {'op': 'adopt', 'a': H(1), 'b': 'r0'}, {'op': 'store', 'via': H(1), 'h': 'r0'}]
                     for k in range(u):
                         if k < m and mode == 'remove':
                             ops += [{'op': 'take', 'via': H(0), 'slot': 0, 'as': 'x%d' % k}, {'op': 'unadopt', 'a': H(0), 'b': 'x%d' % k}, {'op': 'drop', 'h': 'x%d' % k}]
@@ -2079,6 +2088,7 @@ def api_items(prop, tier, seed, oracles, opts=None):
         'weak-raw': lambda h: [{'op': 'downgrade', 'h': h, 'as': 'wq'}, {'op': 'w_into_raw', 'w': 'wq', 'as': 'rq'}, {'op': 'w_from_raw', 'r': 'rq', 'as': 'wq'},
                                {'op': 'upgrade', 'w': 'wq'}, {'op': 'wdrop', 'w': 'wq'}],
         'release-via-raw': lambda h: [],
+        'make_mut-sole-stored': lambda h: [],
     }
     named = dict(F.named_shapes(2))
     named.update(F.named_shapes(3))
@@ -2099,6 +2109,19 @@ def api_items(prop, tier, seed, oracles, opts=None):
                         ops += F.drop_ops(seq[:when])
                         ops += mk(H(tgt))
                         rest = F.drop_ops(seq[when:])
+                        if an == 'make_mut-sole-stored':
+                            # the program lets go of its own handles to the target; the handle its (first) adopter stores is then the only one:
+                            # it is taken out, used for make_mut (unique, no Weak: must mutate in place) and put back
+                            owners = [i for (i, j, r, q) in e if j == tgt and i != tgt and r]
+                            if not owners or when != 0:
+                                continue
+                            ow = owners[0]
+                            slot = [j for (i, j, r, q) in e if i == ow].index(tgt)
+                            ops = F.build_ops(n, e, extras=True)
+                            ops = [o for o in ops if not (o.get('op') == 'extras' and o.get('h') == H(tgt))]
+                            ops += [{'op': 'drop', 'h': H(tgt)}, {'op': 'take', 'via': H(ow), 'slot': slot, 'as': 'sole'}, {'op': 'make_mut', 'h': 'sole'},
+                                    {'op': 'strong_count', 'h': 'sole'}, {'op': 'store', 'via': H(ow), 'h': 'sole'}]
+                            rest = [o for o in F.drop_ops(seq) if o.get('h') != H(tgt)]
                         if an == 'release-via-raw':
                             # the target's named handle is given up through into_raw + decrement_strong_count instead of a drop
                             rest = [({'op': 'drop_via_raw', 'h': o['h']} if o.get('op') == 'drop' and o.get('h') == H(tgt) else o) for o in rest]
